@@ -3,6 +3,7 @@
   theorem (UPDATE part).
 -/
 import Rbgp.Enc.Proofs.Dom
+import Rbgp.Enc.Proofs.TwoByteBlock
 import Rbgp.Enc.Proofs.NegAgree
 namespace Rbgp.Enc
 open Rbgp.Enc.Spec
@@ -167,13 +168,13 @@ theorem master_reach (p : Profile) (i : Input) (h : domReach i = true) :
     | none => simp [hm] at h
     | some nh =>
       simp only [hm, Bool.and_eq_true, Bool.not_eq_true', Bool.or_eq_true] at h
-      obtain ⟨⟨⟨⟨⟨hb, henc⟩, has4⟩, hne⟩, hip⟩, hnhc⟩ := h
+      obtain ⟨⟨⟨⟨⟨hb, henc⟩, hcarr⟩, hne⟩, hip⟩, hnhc⟩ := h
       have hne' : es ≠ [] := by intro hc; rw [hc] at hne; cases hne
       have hall := henc
       simp only [encodable, hm] at hall
       rw [Bool.and_eq_true] at hall
       obtain ⟨hall1, hall2⟩ := hall
-      simp only [frameBase, hm, has4, Bool.not_true, decide_eq_true_eq] at hall1 hall2
+      simp only [frameBase, hm, decide_eq_true_eq] at hall1 hall2
       have hemp : es.isEmpty = false := by cases es <;> simp_all
       obtain ⟨v6, hv6⟩ := Option.isSome_iff_exists.mp hip
       -- from buildable
@@ -194,112 +195,131 @@ theorem master_reach (p : Profile) (i : Input) (h : domReach i = true) :
       have hmaxF : (negotiate i.rem i.loc).maxLen = maxFrame i := maxLen_peer i
       have hmaxE : (negotiate i.loc i.rem).maxLen = maxFrame i := maxLen_enc i
       have hc := codecPair i.loc i.rem f hrx
-      have htwoE : (negotiate i.loc i.rem).twoByte = false := by rw [negotiate_twoByte, has4]; rfl
-      have htwoP : (negotiate i.rem i.loc).twoByte = false := by rw [negotiate_twoByte_comm i.loc i.rem]; exact htwoE
+      have htwoPE : (negotiate i.rem i.loc).twoByte = (negotiate i.loc i.rem).twoByte := negotiate_twoByte_comm i.loc i.rem
       have h16 := negotiate_maxLen_le i.loc i.rem
-      have hfin := sortAttrs_wire attrs (fun a ha => (hok.1 a ha).1)
-      have hok' := attrsOk_wire attrs hok
-      -- the attribute block
-      have habl := attrBlock4_length attrs
-      by_cases hleg : (f == Fam.ipv4 && !extNhNegotiated i) = true
-      · -- legacy IPv4: NEXT_HOP attribute + NLRI section
-        have hleg' := hleg
-        simp only [Bool.and_eq_true, Bool.not_eq_true'] at hleg'
-        have hf4 := fam_eq_ipv4 hleg'.1
-        subst hf4
-        have hextF : (negotiate i.loc i.rem).extNh = false := by rw [hext]; exact hleg'.2
-        have hv : v6 = false := by
-          have : isIpFam Fam.ipv4 = some false := rfl
-          rw [this] at hv6; injection hv6 with h'; exact h'.symm
-        subst hv
-        have hfit' : FitS (negotiate i.loc i.rem).maxLen 0 ((negotiate i.loc i.rem).addpathTx Fam.ipv4)
-            (23 + ((attrBlock4 attrs).length + 7)) es := by
-          simp only [hleg, if_true, hemp, Bool.false_eq_true, if_false] at hall2
-          rw [hmaxE, hap, habl]
-          exact fitS_of_all i Fam.ipv4 false es _ 0 _ _ _ hall2 hes (by simp only [attrWire4]; omega)
-        have hbase : 23 + ((attrBlock4 attrs).length + 7) ≤ 65535 := by
-          simp only [hleg, if_true, hemp, Bool.false_eq_true, if_false] at hall1
-          have := hall1
-          simp only [attrWire4] at habl
-          rw [← hmaxE] at this
-          omega
-        -- the next hop is an IPv4 address
-        obtain ⟨⟨_, hnhok⟩, hnhv4⟩ := hnhb
-        have hafi : (Fam.ipv4.afi == 1) = true := rfl
-        have hne4 : enhNegotiated i Fam.ipv4 = false := hleg'.2
-        rw [if_pos hafi, hne4] at hnhv4
-        cases nh with
-        | v6 a => simp at hnhv4
-        | v6ll g l => simp at hnhv4
-        | v4 a =>
-          have ha : a.length = 4 := by
-            simp only [nhOk, Bool.and_eq_true, beq_iff_eq] at hnhok; exact hnhok.1
-          have hencA : encodeAttrs p (negotiate i.loc i.rem).twoByte attrs 0
-              = .ok (attrBlock4 attrs, (attrBlock4 attrs).length) := by
-            rw [htwoE]
-            have := encodeAttrs_four p attrs 0 (fun a ha => (hok.1 a ha).1) (by omega)
-            simpa using this
-          have hencF : encodeAttrs p (negotiate i.loc i.rem).twoByte (attrs.map wireAttr) 0
-              = .ok (attrBlock4 attrs, (attrBlock4 attrs).length) := by
-            rw [htwoE]
-            have := encodeAttrs_four p (attrs.map wireAttr) 0 (fun a ha => (hok'.1 a ha).1)
-              (by rw [attrBlock4_wire]; omega)
-            simpa [attrBlock4_wire] using this
-          have P : AttrPart (negotiate i.rem i.loc).twoByte (attrBlock4 attrs) (attrs.map wireAttr) :=
-            htwoP ▸ attrPart4 attrs hok h12'.1 h12'.2
-          exact UpdFamFp.check_reach_ok Fam.ipv4 (.v4 a) attrs es
-            (reachLegacyFp p i.loc i.rem attrs es a (attrBlock4 attrs) (attrs.map wireAttr) P hencA hencF
-              (by rw [hasCode_wire]; exact h12'.1) (by rw [hasCode_wire]; exact h12'.2) hextF ha hc)
-            true false ((negotiate i.loc i.rem).addpathTx Fam.ipv4) (attrs.map wireAttr) hm hne' ⟨hes, hfit'⟩ hb henc hmaxF
-            (fun r => by simp [reachLegacyFp, reachLegacyFam, qReach])
+      -- the attribute block `ab` the encoder writes, and the attribute list `fin` the peer ends up with
+      have core : ∀ (ab : Bytes) (fin : List Attr) (P : AttrPart (negotiate i.rem i.loc).twoByte ab fin)
+          (hencA : ab.length < 65536 → encodeAttrs p (negotiate i.loc i.rem).twoByte attrs 0 = .ok (ab, ab.length))
+          (hencF : ab.length < 65536 → encodeAttrs p (negotiate i.loc i.rem).twoByte fin 0 = .ok (ab, ab.length))
+          (hc1f : hasCode 1 fin = true) (hc2f : hasCode 2 fin = true)
+          (hfin : sortAttrs (fin.map canonAttr) = sortAttrs (attrs.map canonAttr))
+          (habl : ab.length = (attrs.map (attrWireSize (!as4Both i.loc i.rem))).sum),
+          check i (run p i) = .ok ∧ ∃ n s dec, run p i = .obs n s dec .t := by
+        intro ab fin P hencA hencF hc1f hc2f hfin habl
+        by_cases hleg : (f == Fam.ipv4 && !extNhNegotiated i) = true
+        · -- legacy IPv4: NEXT_HOP attribute + NLRI section
+          have hleg' := hleg
+          simp only [Bool.and_eq_true, Bool.not_eq_true'] at hleg'
+          have hf4 := fam_eq_ipv4 hleg'.1
+          subst hf4
+          have hextF : (negotiate i.loc i.rem).extNh = false := by rw [hext]; exact hleg'.2
+          have hv : v6 = false := by
+            have : isIpFam Fam.ipv4 = some false := rfl
+            rw [this] at hv6; injection hv6 with h'; exact h'.symm
+          subst hv
+          have hfit' : FitS (negotiate i.loc i.rem).maxLen 0 ((negotiate i.loc i.rem).addpathTx Fam.ipv4)
+              (23 + (ab.length + 7)) es := by
+            simp only [hleg, if_true, hemp, Bool.false_eq_true, if_false] at hall2
+            rw [hmaxE, hap, habl]
+            exact fitS_of_all i Fam.ipv4 false es _ 0 _ _ _ hall2 hes (by omega)
+          have hbase : 23 + (ab.length + 7) ≤ 65535 := by
+            simp only [hleg, if_true, hemp, Bool.false_eq_true, if_false] at hall1
+            have := hall1
+            rw [← hmaxE] at this
+            omega
+          -- the next hop is an IPv4 address
+          obtain ⟨⟨_, hnhok⟩, hnhv4⟩ := hnhb
+          have hafi : (Fam.ipv4.afi == 1) = true := rfl
+          have hne4 : enhNegotiated i Fam.ipv4 = false := hleg'.2
+          rw [if_pos hafi, hne4] at hnhv4
+          cases nh with
+          | v6 a => simp at hnhv4
+          | v6ll g l => simp at hnhv4
+          | v4 a =>
+            have ha : a.length = 4 := by
+              simp only [nhOk, Bool.and_eq_true, beq_iff_eq] at hnhok; exact hnhok.1
+            have hencA := hencA (by omega)
+            have hencF := hencF (by omega)
+            exact UpdFamFp.check_reach_ok Fam.ipv4 (.v4 a) attrs es
+              (reachLegacyFp p i.loc i.rem attrs es a ab fin P hencA hencF
+                hc1f hc2f hextF ha hc)
+              true false ((negotiate i.loc i.rem).addpathTx Fam.ipv4) fin hm hne' ⟨hes, hfit'⟩ hb henc hmaxF
+              (fun r => by simp [reachLegacyFp, reachLegacyFam, qReach])
+              hes hpid hfin
+        · -- MP_REACH_NLRI
+          have hmp : ¬ (f = Fam.ipv4 ∧ (!(negotiate i.loc i.rem).extNh) = true) := by
+            intro ⟨h1, h2⟩
+            apply hleg
+            rw [hext] at h2
+            simp [h1, h2]
+          have hnv4 : nhIsV4 nh = false ∨ nhAsIs f = true := by
+            rcases hnhc with (h | h) | h
+            · exfalso; apply hleg; simp [h.1, h.2]
+            · exact Or.inl h
+            · exact Or.inr h
+          have hlegF : (f == Fam.ipv4 && !extNhNegotiated i) = false := by
+            cases hh : (f == Fam.ipv4 && !extNhNegotiated i) with
+            | true => exact absurd hh hleg
+            | false => rfl
+          have hnhok : nhOk nh = true := hnhb.1.2
+          have hnhmp : NhMp f nh := nhMp_of f nh hnhok hnv4
+          have hvpn : isVpn f = false := (nhPart_ip f v6 hv6).2
+          have hfit' : FitS (negotiate i.loc i.rem).maxLen 0 ((negotiate i.loc i.rem).addpathTx f)
+              (23 + ab.length + 4 + (5 + nh.bytes.length)) es := by
+            simp only [hlegF, Bool.false_eq_true, if_false, nhWireSize, hvpn] at hall2
+            rw [hmaxE, hap, habl]
+            exact fitS_of_all i f v6 es _ 0 _ _ _ hall2 hes (by omega)
+          have hbase : 23 + ab.length + 4 + (5 + nh.bytes.length) ≤ 65535 := by
+            simp only [hlegF, Bool.false_eq_true, if_false, nhWireSize, hvpn] at hall1
+            have := hall1
+            rw [← hmaxE] at this
+            omega
+          have hencA := hencA (by omega)
+          have hencF := hencF (by omega)
+          exact UpdFamFp.check_reach_ok f nh attrs es
+            (reachMpFp p i.loc i.rem f v6 attrs es nh ab fin P hencA hencF
+              hc1f hc2f hmp hv6 hfok.1 hfok.2 hnhmp hc)
+            false v6 ((negotiate i.loc i.rem).addpathTx f) fin hm hne' ⟨hes, hfit'⟩ hb henc hmaxF
+            (fun r => by simp [reachMpFp, reachMpFam, qReach])
             hes hpid hfin
-      · -- MP_REACH_NLRI
-        have hmp : ¬ (f = Fam.ipv4 ∧ (!(negotiate i.loc i.rem).extNh) = true) := by
-          intro ⟨h1, h2⟩
-          apply hleg
-          rw [hext] at h2
-          simp [h1, h2]
-        have hnv4 : nhIsV4 nh = false ∨ nhAsIs f = true := by
-          rcases hnhc with (h | h) | h
-          · exfalso; apply hleg; simp [h.1, h.2]
-          · exact Or.inl h
-          · exact Or.inr h
-        have hlegF : (f == Fam.ipv4 && !extNhNegotiated i) = false := by
-          cases hh : (f == Fam.ipv4 && !extNhNegotiated i) with
-          | true => exact absurd hh hleg
-          | false => rfl
-        have hnhok : nhOk nh = true := hnhb.1.2
-        have hnhmp : NhMp f nh := nhMp_of f nh hnhok hnv4
-        have hvpn : isVpn f = false := (nhPart_ip f v6 hv6).2
-        have hfit' : FitS (negotiate i.loc i.rem).maxLen 0 ((negotiate i.loc i.rem).addpathTx f)
-            (23 + (attrBlock4 attrs).length + 4 + (5 + nh.bytes.length)) es := by
-          simp only [hlegF, Bool.false_eq_true, if_false, nhWireSize, hvpn] at hall2
-          rw [hmaxE, hap, habl]
-          exact fitS_of_all i f v6 es _ 0 _ _ _ hall2 hes (by simp only [attrWire4]; omega)
-        have hbase : 23 + (attrBlock4 attrs).length + 4 + (5 + nh.bytes.length) ≤ 65535 := by
-          simp only [hlegF, Bool.false_eq_true, if_false, nhWireSize, hvpn] at hall1
-          have := hall1
-          simp only [attrWire4] at habl
-          rw [← hmaxE] at this
-          omega
-        have hencA : encodeAttrs p (negotiate i.loc i.rem).twoByte attrs 0
-            = .ok (attrBlock4 attrs, (attrBlock4 attrs).length) := by
+      -- the two AS widths
+      by_cases has4 : as4Both i.loc i.rem = true
+      · have htwoE : (negotiate i.loc i.rem).twoByte = false := by rw [negotiate_twoByte, has4]; rfl
+        have htwoP : (negotiate i.rem i.loc).twoByte = false := by rw [htwoPE]; exact htwoE
+        have hok' := attrsOk_wire attrs hok
+        refine core (attrBlock4 attrs) (attrs.map wireAttr) (htwoP ▸ attrPart4 attrs hok h12'.1 h12'.2) ?_ ?_
+          (by rw [hasCode_wire]; exact h12'.1) (by rw [hasCode_wire]; exact h12'.2)
+          (sortAttrs_wire attrs (fun a ha => (hok.1 a ha).1)) (by rw [has4]; exact attrBlock4_length attrs)
+        · intro hsz
           rw [htwoE]
           have := encodeAttrs_four p attrs 0 (fun a ha => (hok.1 a ha).1) (by omega)
           simpa using this
-        have hencF : encodeAttrs p (negotiate i.loc i.rem).twoByte (attrs.map wireAttr) 0
-            = .ok (attrBlock4 attrs, (attrBlock4 attrs).length) := by
+        · intro hsz
           rw [htwoE]
           have := encodeAttrs_four p (attrs.map wireAttr) 0 (fun a ha => (hok'.1 a ha).1)
             (by rw [attrBlock4_wire]; omega)
           simpa [attrBlock4_wire] using this
-        have P : AttrPart (negotiate i.rem i.loc).twoByte (attrBlock4 attrs) (attrs.map wireAttr) :=
-          htwoP ▸ attrPart4 attrs hok h12'.1 h12'.2
-        exact UpdFamFp.check_reach_ok f nh attrs es
-          (reachMpFp p i.loc i.rem f v6 attrs es nh (attrBlock4 attrs) (attrs.map wireAttr) P hencA hencF
-            (by rw [hasCode_wire]; exact h12'.1) (by rw [hasCode_wire]; exact h12'.2) hmp hv6 hfok.1 hfok.2 hnhmp hc)
-          false v6 ((negotiate i.loc i.rem).addpathTx f) (attrs.map wireAttr) hm hne' ⟨hes, hfit'⟩ hb henc hmaxF
-          (fun r => by simp [reachMpFp, reachMpFam, qReach])
-          hes hpid hfin
+      · have has4f : as4Both i.loc i.rem = false := by simpa using has4
+        have htwoE : (negotiate i.loc i.rem).twoByte = true := by rw [negotiate_twoByte, has4f]; rfl
+        have htwoP : (negotiate i.rem i.loc).twoByte = true := by rw [htwoPE]; exact htwoE
+        -- the RFC 6793 limits are excluded by the domain
+        have hcar : ∀ a ∈ attrs, Carriable a := by
+          rcases hcarr with h | h
+          · rw [has4f] at h; cases h
+          · intro a ha; exact (carriableB_iff a).mp (List.all_eq_true.mp h a ha)
+        have hok2 := attrsOk_fin2 attrs hok
+        have hallOk : ∀ a ∈ attrs, attrOk a = true := fun a ha => (hok.1 a ha).1
+        refine core (attrBlock2 attrs) (attrs.map fin2) (htwoP ▸ attrPart2 attrs hok hcar h12'.1 h12'.2) ?_ ?_
+          (by rw [hasCode_fin2]; exact h12'.1) (by rw [hasCode_fin2]; exact h12'.2)
+          (sortAttrs_fin2 attrs) (by rw [has4f]; exact attrBlock2_length attrs hallOk)
+        · intro hsz
+          rw [htwoE]
+          have := encodeAttrs_two p attrs 0 hallOk (by omega)
+          simpa using this
+        · intro hsz
+          rw [htwoE]
+          have := encodeAttrs_two p (attrs.map fin2) 0 (fun a ha => (hok2.1 a ha).1)
+            (by rw [attrBlock2_fin2]; omega)
+          simpa [attrBlock2_fin2] using this
 
 end Rbgp.Enc
